@@ -270,7 +270,11 @@ func c13(r *Report, s *Sem) {
 				calls[g.Name()] = true
 			}
 		})
-		r.Check(R3, "func (*Client).Close / stops the listener, then finishes or closes the channel", p.pos(cc.Pos()), calls["stopListener"] && calls["FinishSession"] && calls["Close"], fmt.Sprintf("calls %v", sortedKeys(calls)))
+		stop := "stopListener"
+		if sl := p.Method("Client", "stopListener"); sl != nil {
+			stop = sl.Name()
+		}
+		r.Check(R3, "func (*Client).Close / stops the listener, then finishes or closes the channel", p.pos(cc.Pos()), calls[stop] && calls["FinishSession"] && calls["Close"], fmt.Sprintf("calls %v", sortedKeys(calls)))
 	}
 
 	// terminating calls leave the channel in the terminal state whatever the send did (abstract interpretation)
